@@ -28,18 +28,34 @@ struct CaseA {
     /// 0: tag mod S, 1..: all to shard (p-1)
     picker: usize,
     err_at: Option<(usize, usize)>,
+    pending_before: Vec<usize>,
 }
 
 type Outs = Vec<Vec<Out<(Vec<u128>, Vec<u128>)>>>;
 
+/// Input with a fixed size hint; answers Pending (waking itself) before the item positions in
+/// `pending_before`.
 struct Sized<S> {
     inner: S,
     hint: usize,
+    pending_before: Vec<usize>,
+    handed_out: usize,
+    pended: bool,
 }
 impl<S: futures::Stream + Unpin> futures::Stream for Sized<S> {
     type Item = S::Item;
     fn poll_next(mut self: std::pin::Pin<&mut Self>, cx: &mut std::task::Context<'_>) -> std::task::Poll<Option<S::Item>> {
-        std::pin::Pin::new(&mut self.inner).poll_next(cx)
+        if !self.pended && self.pending_before.contains(&self.handed_out) {
+            self.pended = true;
+            cx.waker().wake_by_ref();
+            return std::task::Poll::Pending;
+        }
+        let r = std::pin::Pin::new(&mut self.inner).poll_next(cx);
+        if let std::task::Poll::Ready(Some(_)) = &r {
+            self.handed_out += 1;
+            self.pended = false;
+        }
+        r
     }
     fn size_hint(&self) -> (usize, Option<usize>) {
         (0, Some(self.hint))
@@ -57,13 +73,14 @@ async fn world_run<const S: usize>(c: &CaseA) -> Outs {
             let vals = c.input[s].clone();
             let (shards, picker) = (c.shards, c.picker);
             let err_at = c.err_at.and_then(|(es, p)| (es == s).then_some(p));
+            let pending_before = c.pending_before.clone();
             futs.push(Box::pin(async move {
                 let mut items: Vec<Result<(Fp32BitPrime, Fp32BitPrime), crate::error::Error>> = vals.iter().map(|v| Ok((Fp32BitPrime::truncate_from(*v), Fp32BitPrime::truncate_from(*v + 500_000)))).collect();
                 if let Some(p) = err_at {
                     items.insert(p.min(items.len()), Err(crate::error::Error::Internal));
                 }
                 let hint = items.len();
-                let (values, tags) = reshard_aad(ctx, Sized { inner: stream::iter(items), hint }, move |_, _, tag: &Fp32BitPrime| {
+                let (values, tags) = reshard_aad(ctx, Sized { inner: stream::iter(items), hint, pending_before, handed_out: 0, pended: false }, move |_, _, tag: &Fp32BitPrime| {
                     ShardIndex::from(if picker == 0 { (tag.as_u128() % shards as u128) as u32 } else { ((picker - 1) % shards) as u32 })
                 })
                 .await
@@ -96,12 +113,18 @@ fn run() {
                     input[if layout == 0 { i % shards } else { 0 }].push(2000 + 13 * i as u128);
                 }
                 for picker in 0..=shards {
-                    cases.push(CaseA { shards, input: input.clone(), picker, err_at: None });
+                    cases.push(CaseA { shards, input: input.clone(), picker, err_at: None, pending_before: Vec::new() });
                 }
                 if n == 4 {
+                    let per = input.iter().map(Vec::len).max().unwrap();
+                    let mut scripts: Vec<Vec<usize>> = (0..=per).map(|p| vec![p]).collect();
+                    scripts.push((0..=per).collect());
+                    for pending_before in scripts {
+                        cases.push(CaseA { shards, input: input.clone(), picker: 0, err_at: None, pending_before });
+                    }
                     for es in 0..shards {
                         for p in 0..=input[es].len() {
-                            cases.push(CaseA { shards, input: input.clone(), picker: 0, err_at: Some((es, p)) });
+                            cases.push(CaseA { shards, input: input.clone(), picker: 0, err_at: Some((es, p)), pending_before: Vec::new() });
                         }
                     }
                 }
@@ -130,7 +153,7 @@ fn run() {
         r.inc("reshard_aad_runs");
         r.inc("states");
         r.add("transitions", 3 * c.input.iter().map(Vec::len).sum::<usize>() as u64);
-        let replay = json!({"part":"aad","shards":c.shards,"input":c.input.iter().map(|v| v.iter().map(|x| *x as u64).collect::<Vec<_>>()).collect::<Vec<_>>(),"picker":c.picker,"err_at":c.err_at.map(|x| vec![x.0,x.1])});
+        let replay = json!({"part":"aad","shards":c.shards,"input":c.input.iter().map(|v| v.iter().map(|x| *x as u64).collect::<Vec<_>>()).collect::<Vec<_>>(),"picker":c.picker,"err_at":c.err_at.map(|x| vec![x.0,x.1]),"pending_before":c.pending_before});
         if let Some((es, _)) = c.err_at {
             for h in 0..3 {
                 if let Out::Ok(v) = &o[h][es] {
